@@ -279,6 +279,7 @@ def modelTags : List (String × Bool) :=
     ("EncodedRaggedArray.copy()", false),                               -- strToInt: `alloc 2 [0]`
     ("ragged[bool mask], materialised", false),                         -- strToFloat: `alloc 2 [0, 1] selRows`
     ("gather through RaggedView2 (field text of a file buffer)", false), -- parseSplitFields / genotypePreprocess: `alloc 2 [0, 1] gather`
+    ("gather of fields lying back to back (one-column list table, separators kept)", false),   -- parseSplitFields: the same `alloc 2 [0, 1] gather`
     ("ragged.ravel() of contiguous data", true),                        -- genotypeEncode: `view 1 0`
     ("ndarray basic slice a[:n]", true),                                -- bincountReduce: `view 2 0`
     ("np.maximum.accumulate(a)", false),                                -- mergeIntervals: `alloc 2 [1] acc`
